@@ -50,8 +50,8 @@ section generic
 variable {α : Type} [Add α] [Sub α] [Mul α] [Div α] [Neg α] [NatCast α]
 
 /-- `chempy.units.allclose(a, b, rtol, atol)` for scalars (units.py:514-538).  The expressions `d = abs(a - b)` and
-    `lim = abs(a) * rtol; lim += atol` are GENERATED from the source text (`allcloseD`, `allcloseLim`); hand-written is only the
-    final `return d <= lim` (its text is guarded: `Gen.allcloseReturnText`). -/
+    `lim = abs(a) * rtol; lim = lim + atol` are GENERATED from the source text (`allcloseD`, `allcloseLim`); hand-written is only the
+    final `return np.all(d <= lim)` (its text is guarded: `Gen.allcloseReturnText`). -/
 def allclose [LT α] [DecidableLT α] [LE α] [DecidableLE α] (a b rtol atol : α) : Bool :=
   decide (allcloseD a b ≤ allcloseLim a rtol atol)
 
@@ -87,6 +87,43 @@ def allcloseArr [LT α] [DecidableLT α] [LE α] [DecidableLE α] (a b : List α
 /-- `allclose(a, b, rtol, atol)` for a scalar `a` and a numpy array `b` (scalar `lim`, array `d`: units.py:550-551) -/
 def allcloseScalarArr [LT α] [DecidableLT α] [LE α] [DecidableLE α] (a : α) (b : List α) (rtol atol : α) : Bool :=
   b.all fun y => allclose a y rtol atol
+
+/-- an argument of `allclose`: a number or a 1-d numpy array -/
+inductive Arg (α : Type)
+  | scalar (x : α)
+  | arr (l : List α)
+
+/-- `len` of an array argument, `none` for a number -/
+def Arg.size : Arg α → Option Nat
+  | .scalar _ => none
+  | .arr l => some l.length
+
+/-- element `i` after numpy broadcasting (a number and a one-element array are repeated) -/
+def Arg.get (d : α) : Arg α → Nat → α
+  | .scalar x, _ => x
+  | .arr [x], _ => x
+  | .arr l, i => l.getD i d
+
+/-- numpy broadcasting of two 1-d shapes: `none` = "operands could not be broadcast together" -/
+def bcast : Option Nat → Option Nat → Option (Option Nat)
+  | none, s => some s
+  | s, none => some s
+  | some m, some n => if m = n then some (some m) else if m = 1 then some (some n) else if n = 1 then some (some m) else none
+
+/-- `allclose(a, b, rtol, atol)` for numbers / 1-d arrays in every combination (units.py:531-557 after the repairs of
+    `lim = lim + atol`, `np.all(d <= lim)` and `lim, d = lim + 0*d, d + 0*lim`): `abs(a - b)` that cannot be broadcast falls into
+    the `len(a) == len(b)` fallback (→ `False`); a `lim = abs(a)*rtol + atol` or a final broadcast that cannot be formed raises
+    `ValueError`; otherwise ONE truth value: every element of the common shape satisfies `d ≤ lim` (`allcloseD`, `allcloseLim`). -/
+def allcloseB [LT α] [DecidableLT α] [LE α] [DecidableLE α] (a b : Arg α) (rtol : α) (atol : Arg α) : Except Err Bool :=
+  let z : α := ((0 : Nat) : α)
+  match bcast a.size b.size with
+  | none => .ok false
+  | some sd => match bcast a.size atol.size with
+    | none => .error .valueError
+    | some sl => match bcast sd sl with
+      | none => .error .valueError
+      | some none => .ok (allclose (a.get z 0) (b.get z 0) rtol (atol.get z 0))
+      | some (some n) => .ok ((List.range n).all fun i => allclose (a.get z i) (b.get z i) rtol (atol.get z i))
 
 /-- `allclose(a, b, rtol, atol)` for two Python lists of numbers (`abs(a - b)` raises, units.py:531-536): element-wise with the
     same tolerances when the lengths agree, `False` otherwise -/
